@@ -447,7 +447,11 @@ func conclude(prop, tier string, seed int64, fam *Family, results []instResult, 
 			"exit":                          exit,
 		},
 	}
-	writeJSON(fmt.Sprintf("/verif/evidence/%s.json", prop), ev)
+	evDir := "/verif/evidence"
+	if d := os.Getenv("VCHECK_EVIDENCE_DIR"); d != "" {
+		evDir = d
+	}
+	writeJSON(fmt.Sprintf("%s/%s.json", evDir, prop), ev)
 	fmt.Printf("%s %s: instances=%d paths=%d queries=%d (sched %d) solver=%.1fs validated=%d known=%d violations=%d inconclusive=%v wall=%.1fs\n",
 		prop, tier, len(results), paths, queries, schedQ, solverS, validated, nKnown, nViol, exit == 2, time.Since(t0).Seconds())
 	return exit
